@@ -32,6 +32,9 @@ impl core::fmt::Debug for RoaringBitmap {
     }
 }
 
+/// API parity with the bitset model (which draws a symbolic universe); nothing to do here.
+pub fn verif_set_universe() {}
+
 #[derive(Clone, Copy)]
 enum Op {
     Or,
@@ -93,6 +96,10 @@ impl RoaringBitmap {
         }
         vnd::assume(s.verif_wf());
         s
+    }
+
+    pub fn verif_any_finite() -> Self {
+        Self::verif_any(K)
     }
 
     /// Model-only: build from explicit inclusive intervals (used by native replays).
@@ -187,11 +194,7 @@ impl RoaringBitmap {
     }
 
     pub fn insert(&mut self, x: u32) -> bool {
-        let had = self.contains(x);
-        if !had {
-            *self = Self::combine(self, &Self::single_range(x as u64, x as u64 + 1), Op::Or);
-        }
-        !had
+        self.insert_range(x..=x) == 1
     }
 
     pub fn push(&mut self, x: u32) -> bool {
@@ -228,8 +231,40 @@ impl RoaringBitmap {
 
     pub fn insert_range<R: RangeBounds<u32>>(&mut self, range: R) -> u64 {
         let (lo, hi) = Self::bounds(range);
+        if lo >= hi {
+            return 0;
+        }
+        // single pass: intervals strictly before / strictly after are copied, the rest is merged
         let before = self.len();
-        *self = Self::combine(self, &Self::single_range(lo, hi), Op::Or);
+        let mut out = Self::default();
+        let (mut nl, mut nh) = (lo, hi);
+        let mut placed = false;
+        let mut i = 0;
+        while i < K {
+            if i < self.n {
+                if self.hi[i] < nl {
+                    out.push_segment(self.lo[i], self.hi[i]);
+                } else if self.lo[i] > nh {
+                    if !placed {
+                        out.push_segment(nl, nh);
+                        placed = true;
+                    }
+                    out.push_segment(self.lo[i], self.hi[i]);
+                } else {
+                    if self.lo[i] < nl {
+                        nl = self.lo[i];
+                    }
+                    if self.hi[i] > nh {
+                        nh = self.hi[i];
+                    }
+                }
+            }
+            i += 1;
+        }
+        if !placed {
+            out.push_segment(nl, nh);
+        }
+        *self = out;
         self.len() - before
     }
 
